@@ -379,6 +379,10 @@ for _o in ("with", "without"):
       what="the spawned MPC task when the cancel notification wins its select!: exactly one Cancelled notification if there is a destination, the acknowledgement towards cancel() is given only AFTER that notification and exactly once", bounds=f"policy {_o} output destination; tokio::sync::Notify is the real one", functions=["state::PolicyState::run (cancel arm of the task's select! and what follows the select!)", "state::send_cancel (whole body)"], panic_prop="C15", stubs=[RS], est_gb=2)
 
 
+H("state", "c17_run_entry_keeps_the_permit", needs_segment=["sc_run_head", "sc_validated_ctor"],
+  what="whatever run() does before dispatching on the state neither takes the permit out of the machine nor returns it (run() is entered first in state Validated, long before the MPC task takes the permit over)", bounds="state Validated holding a permit", functions=["state::PolicyState::run (statements before the match on the state; none on the pinned tree)"], panic_prop="C17", stubs=[RS], est_gb=2)
+
+
 def by_prefix(*prefixes, tier=None):
     return [h for n, h in ALL.items() if any(n.startswith(p) for p in prefixes) and (tier is None or h["tier"] == tier)]
 
@@ -560,7 +564,7 @@ PROPS["C17"] = dict(
     outside="permit accounting over whole runs and several policies; failures inside the MPC task; cancel.",
     assumptions=[FMT, TRACING, RS, ANS, ENVST, POLL],
     harnesses=by_prefix("c17_"),
-    segments=["sc_leader_rpcs", "sc_consts_task"],
+    segments=["sc_leader_rpcs", "sc_consts_task", "sc_run_head"],
 )
 PROPS["C15"] = dict(
     level="model_checking",
